@@ -200,28 +200,34 @@ ALLOWED_AXIOMS = {
 
 
 def check_props_file(pid, scratch):
-    """Re-compile Props/<ID>.v against the compiled development, parse Print Assumptions."""
-    vfile = os.path.join(COQ, "theories", "Props", pid + ".v")
-    src = strip_comments(open(vfile).read())
-    names = re.findall(r"\b(?:Theorem|Lemma|Corollary)\s+([A-Za-z0-9_']+)", src)
-    n_print = len(re.findall(r"Print\s+Assumptions", src))
-    rc, out = coqc(scratch, vfile)
-    res = {"file": vfile, "theorems": names, "rc": rc, "closed": 0, "axioms": [], "problems": []}
-    if rc != 0:
-        res["problems"].append("Props/%s.v does not compile: %s" % (pid, out[-1500:]))
-        return res
-    closed = len(re.findall(r"Closed under the global context", out))
-    ax_blocks = re.findall(r"Axioms:\n((?:.+\n?)+?)(?=\n\S|\Z)", out)
-    axioms = set()
-    for m in re.finditer(r"^([A-Za-z0-9_.']+)\s*:", out, re.M):
-        axioms.add(m.group(1))
-    axioms.discard("Axioms")
-    res["closed"] = closed
-    res["axioms"] = sorted(axioms)
-    res["n_print"] = n_print
-    if n_print < len(names):
-        res["problems"].append("a theorem of Props/%s.v lacks Print Assumptions" % pid)
-    bad = [a for a in axioms if a not in ALLOWED_AXIOMS and not a.startswith(("PrimFloat.", "Uint63.", "PrimInt63.", "FloatOps", "FloatAxioms", "Float"))]
+    """Re-compile Props/<ID>.v (and Props/<ID>_*.v) against the compiled development, parse
+    Print Assumptions."""
+    import glob
+    pdir = os.path.join(COQ, "theories", "Props")
+    files = [os.path.join(pdir, pid + ".v")] + sorted(glob.glob(os.path.join(pdir, pid + "_*.v")))
+    res = {"file": files, "theorems": [], "rc": 0, "closed": 0, "axioms": [], "problems": [], "n_print": 0}
+    for vfile in files:
+        if not os.path.exists(vfile):
+            res["problems"].append("%s missing" % vfile); continue
+        src = strip_comments(open(vfile).read())
+        names = re.findall(r"\b(?:Theorem|Lemma|Corollary)\s+([A-Za-z0-9_']+)", src)
+        n_print = len(re.findall(r"Print\s+Assumptions", src))
+        rc, out = coqc(scratch, vfile)
+        res["theorems"] += names
+        res["n_print"] += n_print
+        if rc != 0:
+            res["rc"] = rc
+            res["problems"].append("%s does not compile: %s" % (os.path.basename(vfile), out[-1500:]))
+            continue
+        res["closed"] += len(re.findall(r"Closed under the global context", out))
+        axioms = set(res["axioms"])
+        for m in re.finditer(r"^([A-Za-z0-9_.']+)\s*:", out, re.M):
+            axioms.add(m.group(1))
+        axioms.discard("Axioms")
+        res["axioms"] = sorted(axioms)
+        if n_print < len(names):
+            res["problems"].append("a theorem of %s lacks Print Assumptions" % os.path.basename(vfile))
+    bad = [a for a in res["axioms"] if a not in ALLOWED_AXIOMS and not a.startswith(("PrimFloat.", "Uint63.", "PrimInt63.", "FloatOps", "FloatAxioms", "Float"))]
     if bad:
         res["problems"].append("unexpected assumptions: %s" % bad)
     return res
